@@ -1,10 +1,11 @@
 """C06 — cooperative scheduler runs every task step exactly once, in isolation (DESIGN §5 C06).
 
-Implementation side: the real `recoco.Scheduler(startInThread=False, threaded_selecthub=False)`, its real `run()` loop, real
-`BaseTask`/`Timer`/`Again`/`Sleep`/`Select`/`Recv`/`Send`/`Exit`; `time.time` is the virtual clock and
-`SelectHub._select_func` is the virtual select of Model/Recoco.lean (`vselect`).  No threads are ever started.
+Implementation side: the real `recoco.Scheduler(startInThread=False, threaded_selecthub=False[, use_epoll=True])`, its real `run()`
+loop, real `BaseTask`/`Timer`/`Again`/`Sleep`/`Select`/`Recv`/`Send`/`Exit`, the real pinger; `time.time` is the virtual clock and
+`SelectHub._select_func` is the virtual select of Model/Recoco.lean (`vselect`) - or, with use_epoll, the real EpollSelect on
+a scripted `select.epoll` (FakeEpoll) that polls the same virtual select.  No threads are ever started.
 Times in cases are integers in units of 1/8 s (exact in binary64)."""
-import sys, io, re, json, time, random, threading, itertools, contextlib, select as _rsel, socket, os
+import sys, io, re, json, time, random, threading, itertools, contextlib, select as _rsel, socket, os, errno, signal, struct, fcntl, termios, copy
 import common, poxenv
 import forcedthreads as ft
 from common import Check
@@ -57,8 +58,100 @@ class VFd(object):
         k = H.recv_script.pop(0) if H.recv_script else 1
         if k is None: raise socket.error("scripted recv failure")
         return b"x" * k
+    def fileno(self): return VFD_BASE + self.id       # (what select.epoll and EpollSelect key their tables by)
     def __bool__(self): return self.id != 0          # descriptor 0 is falsy, like the int 0: nothing may test a descriptor's truth value
     def __repr__(self): return "<fd %d>" % self.id
+
+
+class HubBlocked(BaseException):
+    """raised by the harness in place of a system call that would never return (a read of an empty blocking descriptor on the
+    only thread there is): the run ends here, the oracle reports the tasks that are never run"""
+
+
+class WatchedOS(object):
+    """stand-in for the `os` module of pox.lib.util while an inline run lasts: everything is the real `os` (real pipes, real
+    reads and writes - the real pinger stays in the loop), but a `read` that WOULD BLOCK - a descriptor in blocking mode with
+    nothing to read, on the scheduler's own thread, so nobody could ever write to it - is reported instead of being made."""
+    def __init__(self, H): self._H = H
+    def __getattr__(self, name): return getattr(os, name)
+    def read(self, fd, n):
+        H = self._H
+        if isinstance(fd, int):
+            if fd in H.pinger_fds():
+                try: H.drains.append(struct.unpack("i", fcntl.ioctl(fd, termios.FIONREAD, b"\0\0\0\0"))[0])
+                except Exception: pass
+            try: would_block = os.get_blocking(fd) and not _rsel.select([fd], [], [], 0)[0]
+            except (OSError, ValueError): would_block = False
+            if would_block:
+                H.blocked = "os.read(%s, %d) on an empty blocking descriptor" % ("the hub's wake-up pipe" if fd in H.pinger_fds() else "fd", n)
+                raise HubBlocked(H.blocked)
+        return os.read(fd, n)
+
+
+VFD_BASE = 100000                                    # fileno() of virtual descriptor i (never a real descriptor of this process)
+
+
+class FakeEpoll(object):
+    """Scripted stand-in for select.epoll that keeps epoll's contract: descriptors are ints (or objects with fileno()), a second
+    register() of a descriptor fails with EEXIST, modify()/unregister() of an unknown one with ENOENT, poll(timeout) is
+    level-triggered and reports (fd, events) for every registered descriptor that is ready for something its mask asks for
+    (errors always).  Readiness and time come from the run's virtual select (`H.epoll_select(rl, wl, xl, timeout)`)."""
+    def __init__(self, H, sizehint=-1, flags=0):
+        self.H = H; self.reg = {}; self.closed = False
+        H.epolls.append(self)
+    def _fd(self, fd):
+        if self.closed: raise ValueError("I/O operation on closed epoll object")
+        if not isinstance(fd, int):
+            if not hasattr(fd, "fileno"): raise TypeError("argument must be an int, or have a fileno() method")
+            fd = fd.fileno()
+        if fd < 0: raise ValueError("file descriptor cannot be a negative integer (%d)" % fd)
+        return fd
+    def register(self, fd, eventmask=_rsel.EPOLLIN | _rsel.EPOLLPRI | _rsel.EPOLLOUT):
+        fd = self._fd(fd)
+        if fd in self.reg: raise FileExistsError(errno.EEXIST, "File exists")
+        self.reg[fd] = eventmask
+    def modify(self, fd, eventmask):
+        fd = self._fd(fd)
+        if fd not in self.reg: raise FileNotFoundError(errno.ENOENT, "No such file or directory")
+        self.reg[fd] = eventmask
+    def unregister(self, fd):
+        fd = self._fd(fd)
+        if fd not in self.reg: raise FileNotFoundError(errno.ENOENT, "No such file or directory")
+        del self.reg[fd]
+    def poll(self, timeout=None, maxevents=-1):
+        if self.closed: raise ValueError("I/O operation on closed epoll object")
+        H = self.H
+        if timeout is not None and timeout < 0: timeout = None
+        keys = list(self.reg)
+        if H.epoll_order: keys.reverse()                           # the order in which epoll reports events is not specified
+        obj = dict((k, H.epoll_obj(k)) for k in keys)
+        rl = [obj[k] for k in keys if self.reg[k] & (_rsel.EPOLLIN | _rsel.EPOLLPRI)]
+        wl = [obj[k] for k in keys if self.reg[k] & _rsel.EPOLLOUT]
+        xl = [obj[k] for k in keys if not H.is_pinger(obj[k])]
+        ro, wo, xo = H.epoll_select(rl, wl, xl, timeout)
+        ev = []
+        for k in keys:
+            o = obj[k]
+            m = ((_rsel.EPOLLIN if any(o is f for f in ro) else 0) | (_rsel.EPOLLOUT if any(o is f for f in wo) else 0) |
+                 (_rsel.EPOLLERR if any(o is f for f in xo) else 0))
+            if m: ev.append((k, m))
+        if len([1 for k, m in ev if not H.is_pinger(obj[k])]) > 1: H.epoll_multi += 1
+        return ev
+    def close(self): self.closed = True
+    def fileno(self): return VFD_BASE - 1
+    def __enter__(self): return self
+    def __exit__(self, *a): self.close()
+
+
+@contextlib.contextmanager
+def fake_epoll(H):
+    """select.epoll is the scripted FakeEpoll of run H while the block lasts (EpollSelect calls select.epoll() when it is built)"""
+    real = getattr(_rsel, "epoll", None)
+    _rsel.epoll = lambda *a, **kw: FakeEpoll(H, *a, **kw)
+    try: yield
+    finally:
+        if real is None: del _rsel.epoll
+        else: _rsel.epoll = real
 
 
 class BadOp(object):
@@ -68,6 +161,7 @@ class BadOp(object):
 class Run(object):
     """one execution of a case on the real scheduler"""
     inline = True
+    WATCHDOG_S = 60
     def __init__(self, recoco, case):
         self.rc = recoco
         self.case = case
@@ -108,6 +202,34 @@ class Run(object):
         self.tops = []              # top-level task objects by tid
         self.wakes = []             # [position in trace, waker tid, target tid, spelling, kind]
         self.st_used = {}           # target tid -> True once a cross-thread wake (ScheduleTask) was issued for it
+        # the scheduler's configuration (Scheduler(use_epoll=..., threaded_selecthub=...)) and what it needs
+        self.use_epoll = bool(case.get("epoll"))
+        self.epolls = []            # the FakeEpoll objects the code under test created
+        self.epoll_multi = 0        # polls that reported more than one descriptor
+        self.epoll_order = (self.conv >> 1) & 1 if self.use_epoll else 0
+        self.blocked = None         # a system call that would never return was about to be made (see WatchedOS)
+        self.iowait = {}            # tid -> (r, w, x) descriptor ids the task waits for, as the case asked for them
+        self.drains = []            # bytes pending in the wake-up pipe at each read of it
+        self.vfd_by_no = {}
+
+    # ---- what FakeEpoll needs to know about the run
+    def pinger_fds(self):
+        p = getattr(getattr(self, "hub", None), "_pinger", None)
+        try: return [p.fileno()] if p is not None else []
+        except Exception: return []
+
+    def is_pinger(self, o):
+        return o is getattr(getattr(self, "hub", None), "_pinger", None)
+
+    def epoll_obj(self, k):
+        """descriptor number -> the object the virtual select knows"""
+        if k in self.pinger_fds(): return self.hub._pinger
+        f = self.vfd_by_no.get(k)
+        if f is None: raise OSError(errno.EBADF, "Bad file descriptor")      # (epoll itself would have refused it at register())
+        return f
+
+    def epoll_select(self, rl, wl, xl, timeout):
+        return self.vselect(rl, wl, xl, timeout)
 
     def now(self):
         u = self.clock.now * UNIT
@@ -116,7 +238,8 @@ class Run(object):
 
     def fd(self, i):
         f = self.fds.get(i)
-        if f is None: f = self.fds[i] = VFd(i, self)
+        if f is None:
+            f = self.fds[i] = VFd(i, self); self.vfd_by_no[f.fileno()] = f
         return f
 
     def fdl(self, l):
@@ -162,6 +285,13 @@ class Run(object):
         for j, w in enumerate(self.timer_due):
             if w is not None and w < b:
                 self.overslept = "timer %d was due at %d, the clock went from %d to %d" % (j, w, a, b); return
+        for tid, sets in self.iowait.items():                     # ... and no descriptor somebody waits for may have been ready before b
+            for kind, ids, tab in zip("rwx", sets, self.tabs):
+                if kind == "x" and self.use_epoll: continue       # EpollSelect does not take an exceptional-condition set (documented)
+                for f in ids:
+                    t = tab.get(f)
+                    if t is not None and t < b:
+                        self.overslept = "task %d waits for descriptor %d (%s), ready since %d, the clock went from %d to %d" % (tid, f, kind, t, a, b); return
 
     def badop(self):
         rc = self.rc
@@ -292,7 +422,8 @@ class Run(object):
         finished?  Only then may a wake that is carried out later (ScheduleTask) be sent after it: waking a task that waits in
         the hub or for a sub-task is a misuse of the API, not a test of it."""
         prog = self.prog_of[k]; i = self.step_of.get(k, -1) + 1
-        if i >= len(prog): return True
+        if 0 < i <= len(prog) and prog[i - 1][0] == "send": return False      # released by the hub in the middle of a Send: it may write a part
+        if i >= len(prog): return True                                        # and go back to the hub without running its next step
         y = prog[i]
         return y[0] in self.SAFE_NEXT or y == ["num", 0] or y == ["sleep", None]
 
@@ -322,7 +453,10 @@ class Run(object):
             return st
         if k >= ntop:                                                # a timer: only the redundant wake of a queued, still active timer
             j = k - ntop
-            if state_of(self.timers[j]) != "queued" or self.timer_due[j] is None or self.cancelled.get(j) or any(c == j for _, c in self.cbcancel):
+            try: in_deque = any(x is self.timers[j] for x in sched._ready)
+            except Exception: in_deque = False
+            if (state_of(self.timers[j]) != "queued" or not in_deque       # (a timer's own steps are not instrumented: both accounts must agree)
+                    or self.timer_due[j] is None or self.cancelled.get(j) or any(c == j for _, c in self.cbcancel)):
                 return rec("skip")
             h = how if how in (0, 1, 2) else 0                         # (Timer.start() may be called once only)
             t = self.timers[j]
@@ -376,7 +510,7 @@ class Run(object):
             if isinstance(wake, tuple):                             # Send: its last registerSelect + timeout
                 wake = None if wake[1] is None else [self.last_reg[tid] + wake[1], True]
             if any(self.tid(x) == tid for x in self.sched._ready): self.queued_run += 1
-            self.pending.pop(tid, None)
+            self.pending.pop(tid, None); self.iowait.pop(tid, None)
             raw = self.last_ret.pop(tid, recv if (recv is None or recv[0] != "exc") else None)
             self.trace.append(["s", tid, i, self.now(), recv, wake, raw])
             if top: self.life[tid] = "running"; self.step_of[tid] = i
@@ -395,6 +529,9 @@ class Run(object):
                 val, wake = self.build(y, tid)
                 if wake is not None and wake[0] == "send": wake = ("send", wake[1])
                 elif wake is not None and (y[0] != "num" or tid < self.ntop): self.pending[tid] = wake[0]     # `yield n` in a sub-task is its result
+                if y[0] == "select": self.iowait[tid] = [list(l or ()) for l in y[1:4]]
+                elif y[0] == "recv": self.iowait[tid] = [[y[1]], [], [y[1]]]
+                elif y[0] == "send" and y[2] > 0: self.iowait[tid] = [[], [y[1]], [y[1]]]
                 if top:                                             # where the task is once the scheduler has dealt with this yield
                     t_ = y[0]
                     self.life[tid] = ("queued" if (t_ in ("cancel", "tstart", "wake", "dummy") or y == ["num", 0]) else
@@ -491,11 +628,27 @@ class Run(object):
     def go(self):
         rc = self.rc; case = self.case
         self.clock.now = case["t0"] / UNIT
-        sched = self.sched = rc.Scheduler(isDefaultScheduler=False, startInThread=False, threaded_selecthub=False)
-        hub = self.hub = sched._selectHub
-        sched._thread = threading.current_thread()
-        hub._select_func = self.vselect
+        import pox.lib.util as util
         H = self
+        self.util = util; self.saved_os = util.os
+        util.os = WatchedOS(self)                                   # the real pinger on real pipes, with a watchdog on reads that would hang
+        try:
+            with fake_epoll(self):
+                if self.use_epoll:                                  # (spelt out only when asked for: the default configuration is a case too)
+                    sched = rc.Scheduler(isDefaultScheduler=False, startInThread=False, use_epoll=True, threaded_selecthub=False)
+                else:
+                    sched = rc.Scheduler(isDefaultScheduler=False, startInThread=False, threaded_selecthub=False)
+                self.sched = sched
+                hub = self.hub = sched._selectHub
+                return self.go2(sched, hub)
+        finally:
+            util.os = self.saved_os
+            signal.setitimer(signal.ITIMER_REAL, 0)
+
+    def go2(self, sched, hub):
+        rc = self.rc; case = self.case; H = self
+        sched._thread = threading.current_thread()
+        if not self.use_epoll: hub._select_func = self.vselect      # with use_epoll the hub keeps its EpollSelect, on top of FakeEpoll
         self.last_reg = {}
         real_register = hub.registerSelect
         real_return = hub._return
@@ -515,6 +668,13 @@ class Run(object):
             if 0 <= k < H.ntop + len(case["timers"]): H.life[k] = "hub"      # (also a Send that re-registers itself without being resumed)
             return real_register(task, *a, **kw)
         hub.registerSelect = register
+        real_register_timer = hub.registerTimer
+        def register_timer(task, *a, **kw):                         # the other public entry (whether it goes through registerSelect is the hub's business)
+            k = H.tid(task)
+            H.last_reg[k] = H.now()
+            if 0 <= k < H.ntop + len(case["timers"]): H.life[k] = "hub"
+            return real_register_timer(task, *a, **kw)
+        hub.registerTimer = register_timer
         draws = self.draws
         def scripted_random():                                      # Scheduler._random: the case's draw sequence, then 0
             return draws.pop(0) / UNIT if draws else 0.0
@@ -545,11 +705,21 @@ class Run(object):
         sched.cycle = cycle
         run_exc = None
         out = io.StringIO()
+        def alarm(signum, frame):                                   # last resort (wall clock; only a run that hangs ever gets here)
+            if H.blocked is None: H.blocked = "the scheduler thread made no progress for %d s of real time" % self.WATCHDOG_S
+            raise HubBlocked(H.blocked)
+        main = threading.current_thread() is threading.main_thread()
+        if main:
+            old_handler = signal.signal(signal.SIGALRM, alarm)
+            signal.setitimer(signal.ITIMER_REAL, self.WATCHDOG_S)
         try:
             with contextlib.redirect_stdout(out), contextlib.redirect_stderr(out):
                 sched.run()
         except BaseException as e:                                  # whatever leaves Scheduler.run() is an observable, never a harness failure
             run_exc = type(e).__name__
+        finally:
+            if main:
+                signal.setitimer(signal.ITIMER_REAL, 0); signal.signal(signal.SIGALRM, old_handler)
         quit_ = sched._hasQuit if st["quit"] is None else st["quit"]
         tid = self.tid
         text = out.getvalue()
@@ -560,14 +730,18 @@ class Run(object):
                "hub": [tid(t) for t in hub._tasks], "subs": self.subs, "overlap": self.overlap, "run_exc": run_exc,
                "descheduled": text.count("de-scheduled"), "excs": excs, "queued_run": self.queued_run,
                "overslept": self.overslept, "cb_bad": self.cb_bad, "cbcancel": self.cbcancel, "tstarts": self.tstarts,
-               "wakes": self.wakes}
+               "wakes": self.wakes, "blocked": self.blocked}
+        if self.use_epoll: obs["epoll_multi"] = self.epoll_multi
+        obs["maxdrain"] = max(self.drains) if self.drains else 0     # most wake-up bytes found pending at a drain (evidence only)
+        if self.blocked:                                            # who is left behind: everybody who is queued or waits for a time / a descriptor
+            obs["stranded"] = sorted(set(list(self.pending) + list(self.iowait) + [k for k, v in self.life.items() if v in ("queued", "hub")]))[:20]
         # release the pinger pipe now (its __del__ would otherwise close recycled descriptor numbers later)
         p = hub._pinger
         for a in ("_r", "_w"):
             try: os.close(getattr(p, a))
             except OSError: pass
             setattr(p, a, -1)
-        sched.cycle = None; hub._select_func = None; hub.registerSelect = None; hub._return = None; sched._random = None; sched.fast_schedule = None
+        sched.cycle = None; hub._select_func = None; hub.registerSelect = None; hub.registerTimer = None; hub._return = None; sched._random = None; sched.fast_schedule = None
         return obs
 
 
@@ -586,6 +760,9 @@ class ThreadedRun(Run):
     primitives are installed as module attributes for the duration of the run."""
     MAX_STEPS = 8000
     inline = False                                               # (no `wake` here: who schedules whom across threads is C07's subject)
+
+    def epoll_select(self, rl, wl, xl, timeout):
+        return self._vsel(rl, wl, xl, timeout)
 
     def go(self):
         import pox.lib.util as util
@@ -615,8 +792,10 @@ class ThreadedRun(Run):
                 return prim.Event.wait(ev, timeout)
         class VThreading(prim.threading):
             Event = VEvent
+        vos = prim.VirtualOS()                                 # pipes of the REAL pinger (pox.lib.util.make_pinger) under the forced scheduler:
+        self._vos = vos                                        # a read of an empty pipe blocks the thread that makes it until somebody writes
         def is_ready(o, k):
-            if isinstance(o, prim.Pinger): return k == 0 and o.count > 0
+            if isinstance(o, util.Pinger): return k == 0 and vos.pending(o.fileno()) > 0
             t = H.tabs[k].get(o.id)
             return t is not None and t <= H.now()
         def vsel(r, w, x, timeout=None):
@@ -633,15 +812,20 @@ class ThreadedRun(Run):
             return result()
         class VSelectModule:
             select = staticmethod(vsel); error = OSError
-        saved = (rc.threading, rc.Thread, rc.Queue, rc.select, util.makePinger)
+        saved = (rc.threading, rc.Thread, rc.Queue, rc.select, util.os)
         trace_saved = sys.gettrace()
         sys.settrace(None)
         rc.threading, rc.Thread, rc.Queue, rc.select = VThreading, prim.Thread, prim.Queue, VSelectModule
-        util.makePinger = lambda: prim.Pinger()
+        util.os = vos
+        self._vsel = vsel
         out = io.StringIO()
         redir = contextlib.ExitStack()
+        redir.enter_context(fake_epoll(self))
         try:
-            sched = self.sched = rc.Scheduler(isDefaultScheduler=False, startInThread=True, daemon=True, threaded_selecthub=True)
+            if self.use_epoll:
+                sched = self.sched = rc.Scheduler(isDefaultScheduler=False, startInThread=True, daemon=True, use_epoll=True, threaded_selecthub=True)
+            else:
+                sched = self.sched = rc.Scheduler(isDefaultScheduler=False, startInThread=True, daemon=True, threaded_selecthub=True)
             hub = self.hub = sched._selectHub
             self.last_reg = {}
             real_register = hub.registerSelect
@@ -692,7 +876,9 @@ class ThreadedRun(Run):
                 while True:
                     now = H.now()
                     nxt = min([deadlines[t.name] for t in cands] + [t / UNIT for t in fd_times if t > now])
-                    if nxt > H.clock.now: H.clock.now = nxt
+                    if nxt > H.clock.now:
+                        H.advance(now, int(nxt * UNIT))         # no thread can run: nothing that is due before `nxt` may be left waiting
+                        H.clock.now = nxt
                     en = c.enabled()
                     if en: return chooser.pick(c, en)           # a descriptor became ready
                     due = sorted((t for t in cands if deadlines[t.name] <= H.clock.now), key=lambda t: t.name)
@@ -713,13 +899,13 @@ class ThreadedRun(Run):
                    "hub": [self.tid(t) for t in hub._tasks], "subs": self.subs, "overlap": self.overlap,
                    "run_exc": run_exc if run_exc else ("deadlock" if status == "deadlock" else None),
                    "descheduled": text.count("de-scheduled"), "excs": excs, "status": status, "steps": ctl.steps,
-                   "queued_run": self.queued_run, "overslept": None, "cb_bad": self.cb_bad, "cbcancel": self.cbcancel, "tstarts": self.tstarts,
+                   "queued_run": self.queued_run, "overslept": self.overslept, "cb_bad": self.cb_bad, "cbcancel": self.cbcancel, "tstarts": self.tstarts,
                    "wakes": self.wakes}
             if status == "deadlock": obs["crashed"] = True
         finally:
             redir.close()
             leaked = ctl.teardown()
-            rc.threading, rc.Thread, rc.Queue, rc.select, util.makePinger = saved
+            rc.threading, rc.Thread, rc.Queue, rc.select, util.os = saved
             sys.settrace(trace_saved)
             if leaked: common.log("C06: managed threads did not unwind: %s" % leaked)
         return obs
@@ -806,6 +992,8 @@ def rand_case(rng, ntasks=None, maxlen=12):
         c["prios"] = [rng.choice([0, 1, 2, 4, 6, 7]) if (lo or rng.random() < 0.5) else rng.choice([8, 8, 12]) for _ in range(ntop)]
         c["draws"] = [rng.choice([0, 1, 3, 5, 7, 8, 8, 8, 8]) for _ in range(rng.choice([0, 4, 12, 30]))]
     c["conv"] = rng.randrange(1, 1 << 20) if rng.random() < 0.8 else 0
+    if rng.random() < 0.25:                                       # Scheduler(use_epoll=True)
+        c["epoll"] = True; c["x"] = [None] * nfds
     if ntimers and rng.random() < 0.08:                           # callbacks that cancel a timer (possibly their own) or raise: judged by the oracle alone
         c["cbacts"] = [([rng.randrange(ntimers), rng.choice([0, 0, 1, 2]), "cancel", rng.randrange(ntimers)] if rng.random() < 0.6 else
                         [rng.randrange(ntimers), rng.choice([0, 0, 1]), "raise", rng.randrange(10)]) for _ in range(rng.choice([1, 1, 2]))]
@@ -1019,6 +1207,64 @@ def wake_scopes(tier):
             yield respell(c, i); i += 1
 
 
+# ---- the scheduler's configurations: Scheduler(use_epoll=...) x Scheduler(threaded_selecthub=...) ---------------------------------
+
+def epolled(case, conv=None):
+    """the same case on Scheduler(use_epoll=True).  EpollSelect takes no exceptional-condition set, so no descriptor ever
+    has one in these cases."""
+    c = copy.deepcopy(case); c["epoll"] = True; c["x"] = [None] * len(c["x"])
+    c["label"] = "epoll: " + c.get("label", "")
+    if conv is not None: c["conv"] = conv
+    return c
+
+
+SEL_RW = ["select", [0], [0], [], 12]              # one task, one descriptor, both sets
+SEL_W0 = ["select", [], [0], [], 12]
+IO_TABS = [([T0 + 6, None], [None, None]), ([None, None], [T0 + 6, None]), ([T0 + 6, None], [T0 + 2, None]), ([T0 + 2, T0 + 6], [T0 + 6, None])]
+
+
+def both_sets_cases(full=False):
+    """descriptors that enter and leave the read set and the write set in the same hub round and in different rounds (one task
+    asking for both, a reader and a writer of one descriptor), readable only / writable only / one after the other"""
+    i = 0
+    for tr, tw in (IO_TABS if full else IO_TABS[:3]):
+        for c in scope([SEL_RW, SEL_R0, SEL_W0, SLEEP4], 2, 2, timers=[], label="both sets"):      # 21^2
+            c["r"], c["w"], c["x"] = list(tr), list(tw), [None, None]
+            i += 1
+            yield epolled(c, i % 4)
+            if full or tr is IO_TABS[0][0]:
+                c["conv"] = i % 4; yield c                           # ... and on the default hub
+    A = [[["recv", 0, 24]], [SLEEP4, ["recv", 0, 24]], [SEL_RW, ["recv", 0, 24]], [["select", [0, 1], [1], [], 24], ["recv", 1, 8]]]
+    B = [[["send", 0, 6, None, 4]], [SLEEP4, ["send", 0, 6, None, 4]], [SEL_W0, NUM0, ["send", 0, 3, 8, 2]], [["send", 1, 4, 12, 2], ["select", [1], [0], [], 8]]]
+    for a in A:
+        for b in B:
+            for order in ([0, 1], [1, 0], [0, 1, 0]):
+                for tr, tw in (([T0 + 6, T0 + 6], [T0, T0 + 2]), ([T0 + 6, None], [T0 + 2, T0 + 6]), ([T0, T0 + 6], [T0 + 6, None])):
+                    c = mk([a, b], order, [], list(tr), list(tw), [None, None], [2, 0, 4], [3, 3], T0, 200, "reader and writer of one descriptor")
+                    i += 1
+                    yield epolled(c, i % 8)
+                    c["conv"] = i % 8; yield c
+
+
+def burst_cases(full=False):
+    """Many tasks register with the hub in one round: every start and every registration writes one byte to the hub's wake-up
+    pipe, and the hub drains it in reads of 1024.  Bursts of 2^10 - 1, 2^10, 2^10 + 1, 2^11 (...) bytes pending at the drain,
+    at the first idle and at a later one, on the select and on the epoll hub.  tasks = n sleepers (2 bytes each) + k tasks that
+    just block (1 byte each)."""
+    P = [[SLEEP4], [BLOCK], [SLEEP4, SLEEP4], [["select", [0], [], [], 8]], [SLEEP4, NUM0, SLEEP4]]
+    totals = [1023, 1024, 1025, 2048] + ([2047, 2049, 3072, 4096, 1536] if full else [])
+    for n in totals:
+        for ep in (False, True):
+            c = mk(P, [0] * (n // 2) + [1] * (n % 2), label="burst of %d wake-ups" % n, budget=4 * n + 100)
+            yield epolled(c) if ep else c
+    # (program, sleepers, blockers); 1023 x program 4: 2046 bytes at the first drain, exactly 1024 at the third
+    later = [(4, 1023, 0), (2, 511, 1), (3, 512, 0)] + ([(2, 512, 0), (2, 1024, 0), (2, 513, 0), (3, 1024, 0), (3, 1023, 1), (4, 512, 0), (4, 1024, 0)] if full else [])
+    for k, n, b in later:                                            # the burst comes when the sleepers wake together, or when a descriptor is shared
+        c = mk(P, [k] * n + [1] * b, r=[T0 + 4], label="burst at a later drain (%d tasks)" % n, budget=8 * n + 100)
+        yield c
+        if full: yield epolled(c)
+
+
 def epoll_case(rng):
     """a sequence of select() calls on n pipes: plain differential test EpollSelect.select vs select.select (not part of the model)"""
     n = rng.randint(1, 5)
@@ -1117,6 +1363,8 @@ def rand_thr_case(rng):
     if rng.random() < 0.15:
         c["prios"] = [rng.choice([1, 2, 4, 7]) for _ in range(ntop)]
         c["draws"] = [rng.choice([0, 3, 8, 8, 8]) for _ in range(rng.choice([4, 12]))]
+    if rng.random() < 0.3:                                        # Scheduler(use_epoll=True, threaded_selecthub=True)
+        c["epoll"] = True; c["x"] = [None, None, None]
     return threaded(c, {"t": rng.choice(["seq", "random", "random", "pct"]), "seed": rng.randrange(1 << 30)})
 
 
@@ -1158,7 +1406,11 @@ def model_subs(case, trace):
     return subs
 
 
-def per_task_view(case, trace, subs):
+def sorted_sel(v):
+    return ["sel"] + [sorted(l) for l in v[1:]] if isinstance(v, list) and v and v[0] == "sel" else v
+
+
+def per_task_view(case, trace, subs, sort_sets=False):
     """what is determined whatever the interleaving: for every task (sub-tasks named by their call path) its own sequence of
     (step, virtual time, value/exception received, wake time), and every timer's firing times"""
     name = dict((t, "t%d" % t) for t in range(len(case["tasks"]) + len(case["timers"])))
@@ -1166,6 +1418,7 @@ def per_task_view(case, trace, subs):
     view = {}
     for e in trace:
         n = name.get(e[1], "?%d" % e[1])
+        if e[0] == "s" and sort_sets: e = e[:4] + [sorted_sel(e[4]), e[5], sorted_sel(e[6])]      # (epoll: order inside a ready set is open)
         view.setdefault(n, []).append(e[2:] if e[0] == "s" else ["fire"] + e[2:])
     return view
 
@@ -1200,7 +1453,7 @@ class C06(Check):
                     "the observation fields Task.wake / St.trace of the model are compared with the harness's own bookkeeping on every case",
                     "threaded tier: harness/forcedthreads.py (forced thread scheduler, replaced Event/Queue/Pinger/Lock/Thread) plus this module's "
                     "virtual-time select/Event.wait wrappers and time-advance policy (time moves only when no thread can run; select(...,0) polls)"]
-    assumptions = ["inline tier: single scheduler thread with the inline select hub (threaded_selecthub=False)",
+    assumptions = ["inline tier: single scheduler thread with the inline select hub (threaded_selecthub=False), use_epoll False and True",
                    "threaded tier: scheduler thread + hub thread switch only at operations of the synchronisation primitives "
                    "(Event, Queue, pinger, select, Lock) - finer-grained races between plain statements are C07's; CallBlocking threads are not run",
                    "select honours its timeout and reports every ready descriptor (virtual select: level-triggered scripted readiness)",
@@ -1210,7 +1463,13 @@ class C06(Check):
                    "a task that waits in the hub or for a sub-task is a misuse recoco cannot absorb (the registration stays) and is never "
                    "generated; at most one cross-thread wake (ScheduleTask) per target and run, none racing with another wake; no task yields None",
                    "times are multiples of 1/8 s, so float comparisons in the code agree with the model's integer comparisons",
-                   "fewer than 1024 pings accumulate between two idle() calls (pongAll reads at most 1024 bytes; the model counts them)"]
+                   "Scheduler(use_epoll=True): select.epoll is a scripted stand-in (FakeEpoll: register/modify/unregister/poll with epoll's "
+                   "errors for a double register and for modify/unregister of an unknown descriptor, level-triggered, readiness and time from the "
+                   "virtual select); the real EpollSelect runs on top of it; no descriptor has an exceptional condition in these cases "
+                   "(EpollSelect takes no such set).  The hub's pinger is the real one (pox.lib.util.make_pinger -> PipePinger) in every "
+                   "configuration: on real pipes in the inline tier (a read that would block the only thread is reported instead of made; a "
+                   "60 s wall-clock alarm stands behind it), on the forced scheduler's virtual pipes in the threaded tier; SocketPinger "
+                   "(non-posix) is not driven"]
     design_ref = "DESIGN.md §5 C06"
     technique = ("Lean 4 proof (invariants over all reachable states of a small-step model of the scheduler: placement, program order, "
                  "wake-time accounting, timer records vs. firings; one-cycle theorems for isolation and sub-task return; frame lemmas for "
@@ -1255,7 +1514,13 @@ class C06(Check):
                   "by testing only: the hub's bookkeeping (_select, registerSelect, _return) is the same code in both modes and the theorems "
                   "are about that code's model, but the interleavings of the two threads are sampled (a few schedules per program, switches "
                   "at synchronisation operations only), not proved; what is compared there is the per-task projection, not the global order.  "
-                  "Out of scope: real file descriptors (EpollSelect is only compared with select.select on pipes, as plain differential "
+                  "The scheduler's configurations are a case parameter: use_epoll x threaded_selecthub.  With use_epoll the model (which has "
+                  "the plain select) is compared in full when no poll reported two descriptors at once, per task when the outcome cannot "
+                  "depend on the order of one round, and the oracle alone judges the rest (it demands that the clock never passes the "
+                  "readiness time of a descriptor somebody waits for, that a descriptor handed back as ready is ready, and that no read "
+                  "on the scheduler's thread blocks for good).  Bursts of 1023/1024/1025/2048 (...) wake-up bytes pending at a drain of "
+                  "the real pinger are model-compared (the model counts the bytes).  "
+                  "Out of scope: real file descriptors (EpollSelect is additionally compared with select.select on pipes, as plain differential "
                   "testing), CallBlocking worker threads, locks and statement-level races (C07).  Timers built with started=False and started later by a task (relative and absolute deadlines, cancel before/after "
                   "start(), delay 0) and timer callbacks that cancel timers or raise are NOT in the model: those cases are judged by the "
                   "oracle alone (never fired before start() + delay, never after cancel / False / a raising callback, clock never "
@@ -1279,7 +1544,10 @@ class C06(Check):
             "sub-tasks / operations, timers started later by a task, tasks scheduled again by other tasks while queued / blocked / finished / running) + "
             "directed family: 18 ways into the ready queue x 6 ways to block afterwards x 12 wakers x 2 start orders, spellings of schedule() by running number + exhaustive scopes (every "
             "assignment of programs of <= L yields over an alphabet to N ordered tasks) + the threaded scenarios x 6 schedules + two threaded "
-            "3-task scopes; non-trivial = the real run contains a timed resume, a sub-task step or a timer firing")
+            "3-task scopes + configurations: every I/O scenario again on Scheduler(use_epoll=True), 'both sets' scopes (one descriptor in the "
+            "read and the write set of one round / of different rounds, reader and writer tasks of one descriptor) on both hubs and both "
+            "thread modes, bursts of 2^10-1, 2^10, 2^10+1, 2^11 wake-ups at the first and at a later drain; a quarter of the random cases "
+            "use the epoll hub; non-trivial = the real run contains a timed resume, a sub-task step or a timer firing")
 
     def setup(self):
         import logging
@@ -1290,6 +1558,7 @@ class C06(Check):
         import pox.lib.recoco.recoco as recoco
         self.rc = recoco
         self._last = (None, None)
+        self._full = set()
         self.canary_want = None
         self.canary_diff()
         import ast
@@ -1337,11 +1606,22 @@ class C06(Check):
             c["conv"] = i % 4; cases.append(c)
         for i, c in enumerate(scope([NUM0, SEL_R1, ["select", [1], [], [], 4]], 2, 1, label="hidden state")):       # each followed by the canary
             for cv in (0, 9): d = dict(c); d["conv"] = cv; cases.append(d)
+        # the scheduler's configurations: the epoll hub (EpollSelect on a scripted select.epoll), bursts of wake-ups on the real pinger
+        io = ("select", "recv", "send")
+        cases += [epolled(c) for c in hand_cases() if any(y[0] in io for p in c["progs"] for y in p)]
+        cases += [epolled(c, c["conv"]) for c in cases if c.get("label") in ("conventions", "sweep: expired and ready") and not c.get("epoll")][::3]
+        cases += list(both_sets_cases())
+        cases += list(burst_cases())
         cases += list(wake_ways())                                               # 18 x 6 x 12 x 2
         cases += list(wake_timer_cases())
         cases += list(wake_scopes("quick"))
         # threaded select hub (forced thread scheduler)
         cases += list(thr_hand_cases())
+        io_labels = ("two tasks select on one fd", "recv + partial sends", "falsy results", "sub-task results")
+        cases += [epolled(c) for i, c in enumerate(thr_hand_cases()) if c["label"] in io_labels and i % 2 == 0]     # epoll hub on its own thread
+        for i, c in enumerate(both_sets_cases()):
+            if i % 29 == 0: cases.append(threaded(c, sched_of(i)))
+        cases.append(threaded(mk([[SLEEP4], [BLOCK]], [0] * 1024, budget=4300, label="thr: burst of 1024 wake-ups"), sched_of(0)))
         for i, c in enumerate(scope(TH_A, 3, 1, timers=[], label="thr-scope3x1")):      # 7^3
             cases.append(threaded(c, sched_of(i)))
         for i, c in enumerate(scope(TH_B, 3, 2, timers=[], label="thr-scope3x2")):      # 7^3
@@ -1357,12 +1637,20 @@ class C06(Check):
         for _ in range(150 if tier == "quick" else 1800):
             yield rand_thr_case(rng)
         if tier == "thorough":
+            for n, b in ((511, 1), (512, 0), (1023, 1)):
+                for i in (0, 1, 2):
+                    c = threaded(mk([[SLEEP4], [BLOCK]], [0] * n + [1] * b, budget=4 * n + 300, label="thr: burst of %d wake-ups" % (n + b)), sched_of(i))
+                    yield epolled(c) if i == 2 else c
+            for i, c in enumerate(both_sets_cases(full=True)):
+                if i % 7 == 0: yield threaded(c, sched_of(i))
             for i, c in enumerate(scope(TH_C, 3, 2, timers=[[8, False, True, None]], label="thr-scope3x2-wide")):   # 13^3, two schedules each
                 yield threaded(c, sched_of(i))
                 yield threaded(c, {"t": "random", "seed": rng.randrange(1 << 30)})
             for c in scope([a for a in ALPHA if a not in DROP], 2, 2, label="scope2x2-wide"):      # 421^2
                 yield c
             for c in wake_ways(full=True): yield c
+            for c in both_sets_cases(full=True): yield c
+            for c in burst_cases(full=True): yield c
             for c in wake_scopes("thorough"):
                 if not c["label"].endswith(("scope2x2", "scope3x1", "lottery")): yield c
             for c in scope(ALPHA, 3, 1, label="scope3x1-full"):                  # 26^3
@@ -1415,20 +1703,33 @@ class C06(Check):
         queue: Pox.C06.schedule_queued_noop; or the harness made no call), the run must be that of the same programs with
         `yield 0` in their place"""
         if case.get("kind") == "epoll" or case.get("mode") == "threaded": return None
-        if not any(y[0] == "wake" for p in case["progs"] for y in p): return None
+        has_wake = any(y[0] == "wake" for p in case["progs"] for y in p)
+        if not has_wake and not case.get("epoll"): return None
         o = self._o(obs)
         if any(w[4] not in ("noop", "skip") for w in o.get("wakes", ())): return None
+        if case.get("epoll"):
+            # Scheduler(use_epoll=True): EpollSelect emulates select, so the run must be the model's (which has the plain select) -
+            # in full when no poll reported two descriptors at once (the order in which epoll reports them is open), else in
+            # what every task saw for itself, where that cannot depend on the order
+            if o.get("epoll_multi") == 0: self._full.add(id(case))
+            elif has_wake or not schedule_independent(case): return None
+            return self.model_request(case, wakes_are_noops=True, epoll_ok=True)
         return self.model_request(case, wakes_are_noops=True)
 
-    def model_request(self, case, wakes_are_noops=False):
+    def projected(self, case):
+        """is this case compared with the model per task (True) or as one global trace (False)?"""
+        return case.get("mode") == "threaded" or (bool(case.get("epoll")) and id(case) not in self._full)
+
+    def model_request(self, case, wakes_are_noops=False, epoll_ok=False):
         if case.get("kind") == "epoll": return None                 # plain differential test, no model counterpart
+        if case.get("epoll") and case.get("mode") != "threaded" and not epoll_ok: return None     # see model_request2
         has_wake = any(y[0] == "wake" for p in case["progs"] for y in p)
         if has_wake and not wakes_are_noops: return None            # see model_request2
         if case.get("mode") == "threaded" and not schedule_independent(case):
             return None                                             # more than one legal outcome: the oracle alone judges
         if case.get("cbacts"): return None                          # callbacks that act on timers are not modelled: the oracle alone judges
         if any(len(t) > 4 and t[4] for t in case["timers"]): return None      # nor are timers started later by a task (`tstart`)
-        r = {k: v for k, v in case.items() if k not in ("label", "_iso", "mode", "sched", "conv", "cbacts")}
+        r = {k: v for k, v in case.items() if k not in ("label", "_iso", "mode", "sched", "conv", "cbacts", "epoll")}
         r.setdefault("prios", []); r.setdefault("draws", [])
         if any(y[0] in ("badop", "braise", "tstart", "wake", "dummy") for p in r["progs"] for y in p):
             # an operation whose execute() raises = the task is never scheduled again.  A BaseException that is not an Exception: a
@@ -1450,14 +1751,14 @@ class C06(Check):
 
     def model_obs(self, case, resp):
         if "error" in resp: return resp
-        if case.get("mode") == "threaded":                          # the inline model, projected on what no interleaving can change
-            return per_task_view(case, resp["trace"], model_subs(case, resp["trace"]))
+        if self.projected(case):                                    # the inline model, projected on what no interleaving can change
+            return per_task_view(case, resp["trace"], model_subs(case, resp["trace"]), bool(case.get("epoll")))
         return {k: resp.get(k) for k in self.KEYS}
 
     def impl_view(self, case, obs):
         o = self._o(obs)
-        if case.get("mode") == "threaded":
-            return per_task_view(case, o["trace"], o["subs"])
+        if self.projected(case):
+            return per_task_view(case, o["trace"], o["subs"], bool(case.get("epoll")))
         if any(y[0] == "dummy" for p in case["progs"] for y in p):
             # the model runs DummyOp(v) as Sleep(0, absoluteTime=True) (both: fast_schedule at once): it notes wake time 0 and hands
             # back nothing; that v arrives is demanded by the oracle
@@ -1495,8 +1796,12 @@ class C06(Check):
             for i in range(len(c0["calls"])):
                 c = json.loads(json.dumps(c0)); del c["calls"][i]; yield c
             return
-        if len(c0["tasks"]) > 1:
-            for i in range(len(c0["tasks"])):
+        nt = len(c0["tasks"])
+        if nt > 16:                                                  # a burst: by halves and quarters, then the last task - not one run per task
+            for cut in (slice(nt // 2, nt), slice(0, nt // 2), slice(nt - nt // 4, nt), slice(nt - 1, nt)):
+                c = json.loads(json.dumps(c0)); del c["tasks"][cut]; yield c
+        elif nt > 1:
+            for i in range(nt):
                 c = json.loads(json.dumps(c0)); del c["tasks"][i]; yield c
         for k, p in enumerate(c0["progs"]):
             for i in range(len(p)):
@@ -1539,6 +1844,8 @@ def oracle(chk, case, o):
         while tid in tab and tab[tid][1] is not None: tid = tab[tid][1]          # a sub-task inherits its caller's priority
         return prios[tid] if tid < min(len(prios), ntop) else 8
     # 0. the scheduler loop itself must survive whatever the tasks do
+    if o.get("blocked"):
+        return "hung:blocking-read | the scheduler's thread blocked for good in %s: runnable tasks %s (...) are never run" % (o["blocked"], o.get("stranded"))
     if o["crashed"]:
         return "scheduler-died:%s | an exception escaped Scheduler.run()" % o["run_exc"]
     if o["overlap"]:
@@ -1565,6 +1872,17 @@ def oracle(chk, case, o):
             w, hasfds = e[5]
             if (not hasfds or e[6] == TIMEOUT) and e[3] < w:        # e[6]: what the hub put into task.rv (also for Recv/Send)
                 return "early-wake | task %d step %d resumed at %d, wake time %d" % (e[1], e[2], e[3], w)
+    # 2b. resumed for I/O only when there is I/O: a descriptor handed back as ready is ready (scripted readiness times)
+    iotabs = [case["r"], case["w"], case["x"]]
+    for e in trace:
+        if e[0] != "s": continue
+        for v in (e[4], e[6]):
+            if v is not None and v[0] == "sel":
+                for kind, got, tb in zip("rwx", v[1:], iotabs):
+                    for f in got:
+                        if not (f < len(tb) and tb[f] is not None and tb[f] <= e[3]):
+                            return "select:not-ready | task %d step %d was handed descriptor %d as ready (%s) at %d, ready at %s" % (
+                                e[1], e[2], f, kind, e[3], tb[f] if f < len(tb) else None)
     # 3. only the task's own exceptions may deschedule it
     allowed = set(OWN_EXC_NAMES)
     if any(y[0] in ("braise", "badop") for p in case["progs"] for y in p) or any(a[2] == "raise" for a in case.get("cbacts", ())):
